@@ -6,6 +6,7 @@
 import MW.Lemmas.ImportRecords
 import MW.Lemmas.ImportLive
 import MW.Lemmas.LedgerConnect
+import MW.Lemmas.LedgerWF
 namespace MW.Lemmas.ImportExact
 open MW MW.Model.Ledger MW.Model.Import MW.Spec.Chain MW.Spec.Books MW.Lemmas.Ledger
 
@@ -93,6 +94,51 @@ theorem itemsOf_cons (c : Ctx) (w : Wid) (bm : BlockMeta) (tx : Tx) (txs : List 
   rw [List.zipIdx_cons, List.filter_cons]
   by_cases h : Model.Import.touches c.node (managed c.own w) bm.height tx = true <;> simp [h]
 
+
+-- ------------------------------------------------------------------ the working balances keep distinct keys
+
+theorem bn_spendOne {tr : TxRec} {blk : BlockMeta} {sb sb' : Store × Bals} {rel : Rel}
+    (hq : KeysNodup sb.2) (h : spendOne tr blk sb rel = .ok sb') : KeysNodup sb'.2 := by
+  unfold spendOne at h
+  repeat' split at h
+  all_goals cases h
+  exact keysNodup_put hq _ _
+
+theorem bn_creditOne {p : Params} {tr : TxRec} {blk : BlockMeta} {sb sb' : Store × Bals} {rel : Rel}
+    (hq : KeysNodup sb.2) (h : creditOne p tr blk sb rel = .ok sb') : KeysNodup sb'.2 := by
+  unfold creditOne at h
+  split at h
+  · cases h
+  · have := Except.ok.inj h; subst this; exact keysNodup_put hq _ _
+
+theorem bn_addCredits {p : Params} {s : Store} {bals : Bals} {tr : TxRec} {blk : BlockMeta}
+    {sb' : Store × Bals} (hq : KeysNodup bals) (h : addCredits p s bals tr blk = .ok sb') : KeysNodup sb'.2 := by
+  unfold addCredits at h
+  split at h
+  · have := Except.ok.inj h; subst this; exact hq
+  · obtain ⟨sb1, h3, h4⟩ := M_bind_ok h
+    have := Except.ok.inj h4; subst this
+    exact foldlM_preserves (fun (x : Store × Bals) => KeysNodup x.2) (creditOne p tr blk) tr.relOut
+      (fun _ _ _ _ hb hf => bn_creditOne hb hf) (b := (s, bals)) (b' := sb1) hq h3
+
+theorem bn_insertMinedTx {own : Own} {s : Store} {bals : Bals} {tr : TxRec} {blk : BlockMeta}
+    {r : Store × Bals × Bool} (hq : KeysNodup bals) (h : insertMinedTx own s bals tr blk = .ok r) :
+    KeysNodup r.2.1 := by
+  unfold insertMinedTx at h
+  split at h
+  · have := Except.ok.inj h; subst this; exact hq
+  · obtain ⟨sb1, h3, h4⟩ := M_bind_ok h
+    have := Except.ok.inj h4; subst this
+    exact foldlM_preserves (fun (x : Store × Bals) => KeysNodup x.2) (spendOne tr blk) tr.relIn
+      (fun _ _ _ _ hb hf => bn_spendOne hb hf) (b := (recordMinedTx s tr blk, bals)) (b' := sb1) hq h3
+
+theorem bn_addRelevantMined {p : Params} {own : Own} {s : Store} {bals : Bals} {tr : TxRec} {blk : BlockMeta}
+    {sb' : Store × Bals} (hq : KeysNodup bals) (h : addRelevantMined p own s bals tr blk = .ok sb') :
+    KeysNodup sb'.2 := by
+  unfold addRelevantMined at h
+  obtain ⟨r, h1, h2⟩ := M_bind_ok h
+  exact bn_addCredits (bn_insertMinedTx hq h1) h2
+
 /-- **scan of one block.**  Folding `applyItem` over the planned items of a block (from position `k` on) refines
     folding `applyOcc` over ALL its transactions from position `k` on. -/
 theorem scan_txs {c : Ctx} {w : Wid} (hAR : AllReady c.own [w]) (bm : BlockMeta) :
@@ -101,17 +147,18 @@ theorem scan_txs {c : Ctx} {w : Wid} (hAR : AllReady c.own [w]) (bm : BlockMeta)
       (∀ oc' ∈ P ++ occsFrom bm post k, fetchTxUntil c.node oc'.t.id bm.height = some oc'.t) →
       Agree s B → AgreeBal [w] bals B → Loc c.p c.own B → LocG B →
       (∀ hh txs, B.blocks bm.height = some (hh, txs) → hh = bm.hash) →
-      (∀ id loc, B.txrecs (id, bm) = some loc → loc.2 < k) →
+      (∀ id loc, B.txrecs (id, bm) = some loc → loc.2 < k) → KeysNodup bals →
       ∃ sb', (itemsOf c w bm post k).foldlM (applyItem c w) (s, bals) = .ok sb' ∧
         Agree sb'.1 ((occsFrom bm post k).foldl (applyOcc c.p c.own) B) ∧
-        AgreeBal [w] sb'.2 ((occsFrom bm post k).foldl (applyOcc c.p c.own) B) ∧ SameSync s sb'.1 := by
+        AgreeBal [w] sb'.2 ((occsFrom bm post k).foldl (applyOcc c.p c.own) B) ∧ SameSync s sb'.1 ∧
+        KeysNodup sb'.2 := by
   intro post
   induction post with
   | nil =>
-    intro k P B s bals _ _ _ hR hB _ _ _ _
-    exact ⟨(s, bals), rfl, hR, hB, SameSync.refl s⟩
+    intro k P B s bals _ _ _ hR hB _ _ _ _ hKN
+    exact ⟨(s, bals), rfl, hR, hB, SameSync.refl s, hKN⟩
   | cons tx rest ih =>
-    intro k P B s bals hGl hV hNode hR hB hL hG hBH hTP
+    intro k P B s bals hGl hV hNode hR hB hL hG hBH hTP hKN
     have hocc : occsFrom bm (tx :: rest) k = ⟨bm, k, tx⟩ :: occsFrom bm rest (k + 1) := rfl
     rw [hocc] at hV hNode ⊢
     obtain ⟨hV1, hV2⟩ := hV
@@ -176,15 +223,16 @@ theorem scan_txs {c : Ctx} {w : Wid} (hAR : AllReady c.own [w]) (bm : BlockMeta)
       have hstep : applyItem c w (s, bals) (⟨bm, k, tx⟩ : Item) = .ok sb1 :=
         applyItem_some (tr := tr) (by rw [← hrs]; exact hr) himp
       rw [hstep]
-      obtain ⟨sb2, hs2, hR2, hB2, hS2⟩ := ih (k + 1) _ _ sb1.1 sb1.2 hGl' hV2 hNode' hR1 hB1 hL' hG' hBH' hTP'
-      exact ⟨sb2, hs2, hR2, hB2, hS1.trans hS2⟩
+      obtain ⟨sb2, hs2, hR2, hB2, hS2, hK2⟩ := ih (k + 1) _ _ sb1.1 sb1.2 hGl' hV2 hNode' hR1 hB1 hL' hG' hBH' hTP'
+        (bn_addRelevantMined hKN hs1)
+      exact ⟨sb2, hs2, hR2, hB2, hS1.trans hS2, hK2⟩
     · -- it does not: the books stay; the item (if the index lists it at all) is skipped
       have ht' : Spec.Books.touches c.own B tx = false := by simpa using ht
       have hrn := hno ht'
       have hun : applyOcc c.p c.own B ⟨bm, k, tx⟩ = B := applyOcc_untouched ht'
       rw [hun] at hGl' hL' hG' hBH' hTP' ⊢
-      obtain ⟨sb2, hs2, hR2, hB2, hS2⟩ := ih (k + 1) _ _ s bals hGl' hV2 hNode' hR hB hL' hG' hBH' hTP'
-      refine ⟨sb2, ?_, hR2, hB2, hS2⟩
+      obtain ⟨sb2, hs2, hR2, hB2, hS2, hK2⟩ := ih (k + 1) _ _ s bals hGl' hV2 hNode' hR hB hL' hG' hBH' hTP' hKN
+      refine ⟨sb2, ?_, hR2, hB2, hS2, hK2⟩
       by_cases hidx : Model.Import.touches c.node (managed c.own w) bm.height tx = true
       · rw [hidx]
         simp only [if_true, List.singleton_append, List.foldlM_cons]
@@ -228,10 +276,10 @@ theorem node_finds {c : Ctx} (hC : ChainOK c) {h : Nat} {b : Block} (hb : c.node
 theorem scan_height {c : Ctx} {w : Wid} (hAR : AllReady c.own [w]) (hC : ChainOK c) {h : Nat} {b : Block}
     (hb : c.node.chain[h]? = some b) {s : Store} {bals : Bals}
     (hA : AgreeM s (bookOf c.p c.own (c.node.chain.take h)))
-    (hB : AgreeBal [w] bals (bookOf c.p c.own (c.node.chain.take h))) :
+    (hB : AgreeBal [w] bals (bookOf c.p c.own (c.node.chain.take h))) (hKN : KeysNodup bals) :
     ∃ sb', (itemsOf c w ⟨h, b.id⟩ b.txs 0).foldlM (applyItem c w) (s, bals) = .ok sb' ∧
       AgreeM sb'.1 (bookOf c.p c.own (c.node.chain.take (h + 1))) ∧
-      AgreeBal [w] sb'.2 (bookOf c.p c.own (c.node.chain.take (h + 1))) ∧ SameSync s sb'.1 := by
+      AgreeBal [w] sb'.2 (bookOf c.p c.own (c.node.chain.take (h + 1))) ∧ SameSync s sb'.1 ∧ KeysNodup sb'.2 := by
   have hsplit : c.node.chain = c.node.chain.take (h + 1) ++ c.node.chain.drop (h + 1) := (List.take_append_drop _ _).symm
   have hsplit0 : c.node.chain = c.node.chain.take h ++ c.node.chain.drop h := (List.take_append_drop _ _).symm
   have hbh : b.height = h := hC.heights h b hb
@@ -262,7 +310,7 @@ theorem scan_height {c : Ctx} {w : Wid} (hAR : AllReady c.own [w]) (hC : ChainOK
     unfold occsOfBlock at this
     rw [hbh] at this
     exact this
-  obtain ⟨sb', hs, hR, hB', hS⟩ := scan_txs (c := c) (w := w) hAR ⟨h, b.id⟩ b.txs 0 (occs (c.node.chain.take h))
+  obtain ⟨sb', hs, hR, hB', hS, hK'⟩ := scan_txs (c := c) (w := w) hAR ⟨h, b.id⟩ b.txs 0 (occs (c.node.chain.take h))
     { bookOf c.p c.own (c.node.chain.take h) with addrs := fun k => AMap.get s.addrs k } s bals
     ((glob_bookOf (p := c.p) hv0).congrM e) hVb hNode hA.toAgree (hB.congrM e) (hL0.congrM e) (hG0.congrM e)
     (by
@@ -281,7 +329,7 @@ theorem scan_height {c : Ctx} {w : Wid} (hAR : AllReady c.own [w]) (hC : ChainOK
       have hk2 : oc.bm = ⟨h, b.id⟩ := (congrArg Prod.snd hkey).symm
       rw [hk2] at hbm'
       injection hbm' with h1 _
-      omega)
+      omega) hKN
   have e' : EqM ((occsFrom ⟨h, b.id⟩ b.txs 0).foldl (applyOcc c.p c.own)
       { bookOf c.p c.own (c.node.chain.take h) with addrs := fun k => AMap.get s.addrs k })
       (bookOf c.p c.own (c.node.chain.take (h + 1))) := by
@@ -289,4 +337,4 @@ theorem scan_height {c : Ctx} {w : Wid} (hAR : AllReady c.own [w]) (hC : ChainOK
     unfold occsOfBlock
     rw [hbh]
     exact foldOcc_eqM _ _ _ e.symm
-  exact ⟨sb', hs, hR.toM.congr e', hB'.congrM e', hS⟩
+  exact ⟨sb', hs, hR.toM.congr e', hB'.congrM e', hS, hK'⟩
